@@ -27,13 +27,27 @@ STRENGTH = {
  "C08-c": "identifiers that spell a pseudo-keyword (always back-quoted) in the random sentences of C04/C05/C08/C09/C16/C17/C19",
  "C09-c": "wide broken lists (7 - 1 500 elements, each with a syntax error)",
  "C16-c": "reserved words written unquoted as field names after a dot; `a.KW KW` forms in C14",
+ "C03-d": "error ranges that start on a late line and span many lines (C03), ranges crossing a digit-count boundary of the line numbers (C20)",
+ "C07-d": "integer atoms at and beyond the INT64 boundary in the operator trees",
+ "C11-d": "statements ending in a pipe SELECT with trailing comma (and other end-of-input-sensitive statements) in the list workload",
+ "C14-d": "every \\uXXXX escape and every BMP \\UXXXXXXXX escape, every byte value between two tokens, rendered G sentences in the C13/C14 workloads",
+ "C17-d": "nested ranging over one stored Preorder value",
+ "C19-d": "a second set of poslang expression objects shared by all node types with the same expression text",
+ "C20-d": "texts of up to 400 (thorough 3 000) lines with every position resolved",
+ "C01-e": "G writes `expression.*` over arbitrary expressions (which exposed and led to the repair of the residual `a + 1 .*` defect)",
+ "C02-e": "duplicated token runs (lengths 1-8) as near misses",
+ "C04-e": "future-syntax phrase insertion (`IS NOT DISTINCT FROM b`, `QUALIFY`, `OVER ()`, pipe operators ...) into short corpus sentences",
+ "C06-e": "hostile prefixes (BOM, NBSP, zero-width space, NUL ...) in front of valid inputs",
+ "C08-e": "hand-written sentences and re-spelling pairs around the fused tokens `<>` and `>>`",
+ "C10-e": "Bad-type seeds with a comment directly before `>>`; comment-only separators as a random mutation",
+ "C16-e": "see C08-e",
  "C18-c": "more poison / probe pairs (a call that stops on an unconsumed identifier / ) / ], then an input starting with `.5`)",
 }
 out = []
 out.append("## 11. Seeded changes and kill matrix\n")
 out.append("Every change below was written by a fresh sub-agent that saw only the text of one property and a scratch git\n"
-           "worktree of /repo (nothing from /verif), in three rounds: (a) free choice, (b) a prescribed area of the code per\n"
-           "property, (c) \"make it survive generic property-based testing\". Each was verified with\n"
+           "worktree of /repo (nothing from /verif), in five rounds: (a) free choice, (b) a prescribed area of the code per\n"
+           "property, (c)-(e) \"make it survive generic property-based testing\" with an increasingly detailed description of what such testing does. Each was verified with\n"
            "`tools/mutant_verify.sh` (compiles, unedited suite passes, demonstration fails with the change and passes without)\n"
            "and is kept as `seeded/<name>/{patch.diff, mutant_demo_test.go, MUTANT.md, meta.json}`. \"caught by\" lists the\n"
            "checks whose **quick** command exits 1 on a scratch copy of /repo with the patch applied (`tools/killmatrix.sh`).\n"
